@@ -30,10 +30,12 @@ ASSUMPTIONS = ["sets whose 1e-6-rounded points collide (or may collide under eit
                "weights are compared to 1e-12"]
 TIERS = {"quick": dict(cases=4000, shards=8, case_timeout=120, shard_timeout=900),
          "thorough": dict(cases=40000, shards=16, case_timeout=120, shard_timeout=3000)}
-FLOORS = {"quick": {"permutations_checked": 1500, "canonical_ids_checked": 500, "define_register_checked": 1000,
-                    "lookups_checked": 1000, "mappable_checked": 500, "qubit_weights_checked": 5000},
-          "thorough": {"permutations_checked": 15000, "canonical_ids_checked": 5000, "define_register_checked": 10000,
-                       "lookups_checked": 10000, "mappable_checked": 5000, "qubit_weights_checked": 50000}}
+FLOORS = {"quick": {"permutations_checked": 3000, "canonical_ids_checked": 900, "define_register_checked": 3000,
+                    "lookups_checked": 3000, "mappable_checked": 2000, "qubit_weights_checked": 8000,
+                    "sets_with_near_ties": 750, "detuning_maps_built": 2500},
+          "thorough": {"permutations_checked": 30000, "canonical_ids_checked": 9000, "define_register_checked": 30000,
+                       "lookups_checked": 30000, "mappable_checked": 20000, "qubit_weights_checked": 80000,
+                       "sets_with_near_ties": 7500, "detuning_maps_built": 25000}}
 
 DELTAS = [4e-7, -4e-7, 6e-7, -6e-7, 1e-6, -1e-6, 2e-6, 5e-6, 2e-5, 3e-7, 1.1e-6]
 
